@@ -229,6 +229,57 @@ def _abstract_prepass(alg, pre, goals, timeout_s, seed):
   return still, done
 
 
+def _sos_prepass(alg, pre, goals, timeout_s, seed):
+  """weakening pre-pass (can only prove): for every defining equation  s*s == t1*t1 + ... + tn*tn (+ non-negative constants)  among the assumptions, keep only
+  the consequences  s*s >= ti*ti  (for if-free ti) and the sign facts, drop every other assumption, and try each goal from the precondition and those facts.
+  Dropping premises is sound; the small context is what lets nlsat answer (from_to: |rot|^2 >= w^2 >= 1e-12)."""
+  import z3
+
+  def is_sq(e):
+    if z3.is_mul(e):
+      ch = e.children()
+      return len(ch) == 2 and ch[0].get_id() == ch[1].get_id()
+    if z3.is_app(e) and e.decl().kind() == z3.Z3_OP_POWER:
+      return z3.is_rational_value(e.arg(1)) and e.arg(1).as_fraction() == 2
+    return False
+  memo = {}
+
+  def has_ite(e):
+    k = e.get_id()
+    if k not in memo:
+      memo[k] = z3.is_app(e) and (e.decl().kind() == z3.Z3_OP_ITE or any(has_ite(c) for c in e.children()))
+    return memo[k]
+  facts = []
+  for a in list(alg.assume):
+    if isinstance(a, bool):
+      continue
+    if z3.is_eq(a) and is_sq(a.arg(0)) and (z3.is_add(a.arg(1)) or is_sq(a.arg(1))):
+      ch = a.arg(1).children() if z3.is_add(a.arg(1)) else [a.arg(1)]
+      if all(is_sq(c) or (z3.is_rational_value(c) and c.as_fraction() >= 0) for c in ch):
+        facts += [a.arg(0) >= c for c in ch if not has_ite(c)]
+    elif (z3.is_ge(a) or z3.is_le(a) or z3.is_gt(a) or z3.is_lt(a)) and not has_ite(a):
+      facts.append(a)
+  if not facts:
+    return goals, 0
+  still, done = [], 0
+  for g in goals:
+    if isinstance(g, bool):
+      still.append(g)
+      continue
+    s = z3.Solver()
+    s.set('timeout', int(timeout_s * 1000))
+    s.set('random_seed', seed)
+    for a in list(pre) + facts:
+      if not isinstance(a, bool):
+        s.add(a)
+    s.add(z3.Not(g))
+    if s.check() == z3.unsat:
+      done += 1
+    else:
+      still.append(g)
+  return still, done
+
+
 def smt_prove(alg: Z3Alg, pre, goal, timeout_s=30, name='', use_cvc5=True, side=False, seed=0, abstract=False):
   """Valid(pre & alg.assume => goal)?  pre: list of z3 bools.  goal: z3 bool or list (conjunction).
   Returns Result: proved (unsat), refuted (sat + model as witness), undecided."""
@@ -247,6 +298,9 @@ def smt_prove(alg: Z3Alg, pre, goal, timeout_s=30, name='', use_cvc5=True, side=
     if any(isinstance(a, bool) and not a for a in pre):
       return Result(ERROR, 'precondition is the constant False (vacuous)')
     goals, n_abs = _abstract_prepass(alg, pre, goals, min(20, timeout_s), seed)
+    if goals:
+      goals, n_sos = _sos_prepass(alg, pre, goals, min(20, timeout_s), seed)
+      n_abs += n_sos
     if not goals:
       return Result(PROVED, 'unsat (all %d clauses after abstraction of squared subterms by fresh reals)' % n_abs,
                     stats={'solver': 'z3 ' + z3.get_version_string(), 'queries': n_abs, 'clauses': pre_n, 'abstracted_clauses': n_abs})
@@ -280,6 +334,34 @@ def smt_prove(alg: Z3Alg, pre, goal, timeout_s=30, name='', use_cvc5=True, side=
     if r2 == 'unsat':
       stats['solver'] = 'cvc5 (after z3 unknown)'
       return Result(PROVED, 'unsat (cvc5)', stats=stats)
+  if len(goals) > 1:
+    # clause split: the negated conjunction is a disjunction; each disjunct alone is a much easier query (a counterexample of ONE clause is a counterexample of the
+    # conjunction, and the conjunction is valid iff every clause is)
+    open_, t1 = 0, time.time()
+    per = max(10, min(int(timeout_s), 60))
+    for k, g in enumerate(goals):
+      if time.time() - t1 > 4 * timeout_s:
+        open_ += len(goals) - k
+        break
+      sk = z3.Solver()
+      sk.set('timeout', per * 1000)
+      sk.set('random_seed', seed)
+      for a in list(pre) + list(alg.assume):
+        if not isinstance(a, bool):
+          sk.add(a)
+      sk.add(z3.Not(g))
+      rk = sk.check()
+      stats['queries'] += 1
+      if rk == z3.sat:
+        m = sk.model()
+        wit = {nm: _model_value(m, v) for nm, v in alg.vars.items()}
+        stats['solver_s'] = round(time.time() - t0, 3)
+        return Result(REFUTED, 'sat (clause %d of %d, after the joint query was unknown)' % (k + 1, len(goals)), witness=wit, stats=stats, solver_output=str(m)[:4000])
+      if rk != z3.unsat:
+        open_ += 1
+    stats['solver_s'] = round(time.time() - t0, 3)
+    if open_ == 0:
+      return Result(PROVED, 'unsat (clause by clause, after the joint query was unknown)', stats=stats)
   return Result(UNDECIDED, 'z3: unknown (%s)' % reason, stats=stats)
 
 
